@@ -152,7 +152,15 @@ def main(tier):
     plan += [(racing_from("healthy", [dict(max_workers=2, timeout=7), dict(max_workers=2)]), 1, Ponly),
              (racing_from("cold", [dict(max_workers=1), dict(max_workers=2)]), 1, Ponly),
              (racing_from("healthy", [dict(max_workers=2, timeout=7), dict(max_workers=1, timeout=7)]), 1, Ponly)]
+    # source-line granularity: the decision logic of get_reusable_executor under one preemption
+    # at any line
+    plan += simcheck.line_plan([racing_from("cold", [dict(max_workers=2), dict(max_workers=2)]),
+                                racing_from("broken", [dict(max_workers=2), dict(max_workers=2)]),
+                                racing(1, 2, 2, None)])
     if tier == "thorough":
+        plan += simcheck.line_plan([racing_from(st, [dict(max_workers=2, timeout=7), dict(max_workers=1)])
+                                    for st in ("cold", "broken", "shutdown", "healthy")]
+                                   + [racing(2, 1, 3, None), PG.reusable_resize(2, 1, 0.05)])
         for start in ("cold", "broken", "shutdown", "healthy"):
             plan.append((racing_from(start, [dict(max_workers=1), dict(max_workers=2), dict(max_workers=2)]), 1, Ponly))
             plan.append((racing_from(start, [dict(max_workers=2, reuse=False), dict(max_workers=2)]), 1, Ponly))
